@@ -30,13 +30,61 @@ def _init(exe, env, timeout, cwd, post=None):
     _G["cwd"] = cwd
 
 
+OUT_CAP = 32 << 20      # bytes of stdout+stderr after which a run is killed and reported as a hang ("output flood")
+
+
 def _one(exe, env, args, data, timeout, cwd=None):
+    """runs one case; output is read by two threads with a cap, so that a program that prints without bound
+    neither exhausts memory nor has to be waited for until the timeout"""
+    import threading
+    import time
+    p = subprocess.Popen([exe] + list(args), stdin=subprocess.PIPE if data is not None else subprocess.DEVNULL,
+                         stdout=subprocess.PIPE, stderr=subprocess.PIPE, env=env, cwd=cwd)
+    bufs = {"out": [], "err": []}
+    tot = [0]
+    flood = [False]
+
+    def pump(f, key):
+        while True:
+            b = f.read(65536)
+            if not b:
+                break
+            tot[0] += len(b)
+            if tot[0] <= OUT_CAP:
+                bufs[key].append(b)
+            elif not flood[0]:
+                flood[0] = True
+                try:
+                    p.kill()
+                except OSError:
+                    pass
+    ts = [threading.Thread(target=pump, args=(p.stdout, "out"), daemon=True), threading.Thread(target=pump, args=(p.stderr, "err"), daemon=True)]
+    for t in ts:
+        t.start()
+    if data is not None:
+        def feed():
+            try:
+                p.stdin.write(data)
+                p.stdin.close()
+            except (BrokenPipeError, OSError):
+                pass
+        tf = threading.Thread(target=feed, daemon=True)
+        tf.start()
+    timed_out = False
     try:
-        p = subprocess.run([exe] + list(args), input=data, stdout=subprocess.PIPE,
-                           stderr=subprocess.PIPE, env=env, timeout=timeout, cwd=cwd)
-        return Result(p.returncode, p.stdout, p.stderr, False)
-    except subprocess.TimeoutExpired as e:
-        return Result(None, e.stdout or b"", e.stderr or b"", True)
+        p.wait(timeout=timeout)
+    except subprocess.TimeoutExpired:
+        timed_out = True
+        p.kill()
+        p.wait()
+    for t in ts:
+        t.join(5)
+    out, err = b"".join(bufs["out"]), b"".join(bufs["err"])
+    if flood[0]:
+        return Result(None, out[:1 << 20], err[:1 << 20] + b"\n[killed: output exceeded %d bytes]" % OUT_CAP, True)
+    if timed_out:
+        return Result(None, out, err, True)
+    return Result(p.returncode, out, err, False)
 
 
 def _chunk(chunk):
@@ -79,13 +127,23 @@ class Runner:
         for r in self.pool.imap(_chunk, chunks):
             res.extend(r)
         self.nrun += n
-        for i, r in enumerate(res):
-            if isinstance(r, Result) and r.timed_out:      # alone, with the long timeout, before calling it a hang
-                self.nretry += 1
-                r2 = run_one(self.exe, cases[i][0], cases[i][1], self.env, self.timeout2, self.cwd)
-                if r2.timed_out:     # busy machine: one more solitary attempt with five times the limit
-                    r2 = run_one(self.exe, cases[i][0], cases[i][1], self.env, 5 * self.timeout2, self.cwd)
-                res[i] = self.post(cases[i][0], cases[i][1], r2) if self.post else r2
+        # timed-out cases: re-run with the long timeout before calling them a hang.  The first two are re-run alone
+        # (and, if still hanging, once more with five times the limit: busy machine); further ones are re-run four
+        # at a time with the long timeout - a deterministic hang has been established by then and each of them
+        # still gets 6 x the ordinary limit.
+        late = [i for i, r in enumerate(res) if isinstance(r, Result) and r.timed_out]
+        for n_, i in enumerate(late[:2]):
+            self.nretry += 1
+            r2 = run_one(self.exe, cases[i][0], cases[i][1], self.env, self.timeout2, self.cwd)
+            if r2.timed_out and b"output exceeded" not in r2.err:
+                r2 = run_one(self.exe, cases[i][0], cases[i][1], self.env, 5 * self.timeout2, self.cwd)
+            res[i] = self.post(cases[i][0], cases[i][1], r2) if self.post else r2
+        if len(late) > 2:
+            from concurrent.futures import ThreadPoolExecutor
+            with ThreadPoolExecutor(4) as ex:
+                for i, r2 in zip(late[2:], ex.map(lambda j: run_one(self.exe, cases[j][0], cases[j][1], self.env, self.timeout2, self.cwd), late[2:])):
+                    self.nretry += 1
+                    res[i] = self.post(cases[i][0], cases[i][1], r2) if self.post else r2
         return res
 
     def close(self):
